@@ -1293,6 +1293,12 @@ func EvalProgram(progSrc string, files []InputFile, rootSelectors []string, stdo
 				}
 			}
 		}
+
+		// More() is also false for a stray ']' or '}' between values and when
+		// the reader fails: only a clean end of input ends the file silently
+		if _, err := d.Token(); err != nil && err != io.EOF {
+			return &ev, JsonError{err.Error(), file.Name}
+		}
 	}
 
 	// end rules
